@@ -494,6 +494,10 @@ func envInt(name string, def int64) int64 {
 // SpecFor: the check specification adjusted for the tier.
 func SpecFor(prop, tier string) CheckSpec {
 	spec := Checks[prop]
+	if v := os.Getenv("VERIF_PROFILES"); v != "" && len(spec.Profiles) > 0 {
+		// exploratory override (not used by the registered commands): search with these generator profiles only
+		spec.Profiles = strings.Split(v, ",")
+	}
 	if tier == "thorough" && spec.Opts.BankFailEnum {
 		spec.Opts.MaxEnumBlocks = 40
 	}
